@@ -751,49 +751,87 @@ func c07R2Push(c *Ctx) {
 			continue
 		}
 		tn := FnName(fn)
+		root := c05Root(fn)
 		expected := c07DescParam(fn)
-		var ics []ssa.CallInstruction
-		icAl := map[ssa.Value]bool{}
-		for _, ic := range CallsTo(fn, c07Index, c07IdxAll) {
-			if _, isDefer := ic.(*ssa.Defer); isDefer {
-				continue
+		isExpected := func(v ssa.Value, e *c05Env) bool {
+			if expected == nil {
+				return false
 			}
-			a := ic.Common().Args
-			if c05DescSource(a[len(a)-1]) == expected && expected != nil {
-				ics = append(ics, ic)
-				for al := range Aliases(ic.Value()) {
-					icAl[al] = true
-				}
+			w, at := e.up(v)
+			if !at.isRoot() {
+				return false
 			}
+			return c05DescSource(w) == expected
 		}
-		if len(ics) == 0 {
+		type hit struct {
+			call ssa.CallInstruction
+			env  *c05Env
+		}
+		var hits []hit
+		seenHit := map[ssa.Instruction]bool{}
+		spec := c05PassSpec{Success: true,
+			Instr: func(in ssa.Instruction, e *c05Env) bool {
+				call, ok := in.(*ssa.Call)
+				if !ok || (CalleeName(call) != c07Index && CalleeName(call) != c07IdxAll) {
+					return false
+				}
+				a := call.Call.Args
+				if !isExpected(a[len(a)-1], e) {
+					return false
+				}
+				if !seenHit[in] {
+					seenHit[in] = true
+					hits = append(hits, hit{call, e})
+				}
+				return true
+			},
+			Edges: func(e *c05Env) []Edge {
+				var out []Edge
+				if x.skip != "" {
+					te, _, _ := CallTests(e.Fn, "errors.Is", func(call *ssa.Call) bool { return sentinelName(call.Call.Args[1]) == x.skip })
+					out = append(out, te...)
+					// `err == errSkipUnnamed` / switch forms
+					eq, _ := c05EqEdges(e.Fn, func(v ssa.Value) bool { return isErrorType(v.Type()) }, func(v ssa.Value) bool { return sentinelName(v) == x.skip })
+					out = append(out, eq...)
+				}
+				// kinds without outgoing edges need no indexing (R3 ties IsManifest to the kinds Successors decodes)
+				_, notManifest, _ := CallTests(e.Fn, "~/internal/descriptor.IsManifest", func(call *ssa.Call) bool { return isExpected(call.Call.Args[0], e) })
+				return append(out, notManifest...)
+			}}
+		ok := c05SuccessPasses(root, spec)
+		if len(hits) == 0 {
 			c.Violation(R, tn+"|index-on-every-success", fn.Pos(), "Push never indexes the pushed descriptor in the predecessor graph: Predecessors omits every edge of this manifest")
 			continue
 		}
-		ct := newCut().Calls(ics)
-		if x.skip != "" {
-			te, _, _ := CallTests(fn, "errors.Is", func(call *ssa.Call) bool { return sentinelName(call.Call.Args[1]) == x.skip })
-			ct.Edges(te...)
-		}
-		// kinds without outgoing edges need no indexing (R3 ties IsManifest to the kinds Successors decodes)
-		_, notManifest, _ := CallTests(fn, "~/internal/descriptor.IsManifest", func(call *ssa.Call) bool { return c05DescSource(call.Call.Args[0]) == expected })
-		ct.Edges(notManifest...)
-		ok, detail := true, ""
-		for _, a := range c05MaybeNilAtoms(fn) {
-			if icAl[a.Val] || icAl[strip(a.Val)] {
-				continue
+		c.Check(R, tn+"|index-on-every-success", hits[0].call.Pos(), ok,
+			ifelse(ok, "every path to a nil error passes graph.Index(expected)"+ifelse(x.skip != "", " (discarded unnamed content excepted)", ""), "Push can succeed without indexing the pushed node: Predecessors of its successors omit it"))
+		okErr, detail := true, ""
+		for _, h := range hits {
+			r := ErrFlow(h.call, ErrFlowOpts{})
+			if !r.OK {
+				okErr, detail = false, r.Detail
+			} else if detail == "" {
+				detail = r.How
 			}
-			if !c05AtomMustPass(a, ct) {
-				ok, detail = false, "return at "+c.P.Pos(a.Ret.Pos())
+			for e := h.env; e.Call != nil && e.Parent != nil; e = e.Parent {
+				if ErrOf(e.Call) == nil {
+					okErr, detail = false, "the helper "+FnName(e.Fn)+" that indexes has its error discarded at "+c.P.Pos(e.Call.Pos())
+					continue
+				}
+				if r := ErrFlow(e.Call, ErrFlowOpts{Tolerated: ifelseS(x.skip != "", []string{x.skip}, nil)}); !r.OK {
+					okErr, detail = false, r.Detail
+				}
 			}
 		}
-		c.Check(R, tn+"|index-on-every-success", ics[0].Pos(), ok,
-			ifelse(ok, "every path to a nil error passes graph.Index(expected)"+ifelse(x.skip != "", " (discarded unnamed content excepted)", ""), "Push can succeed without indexing the pushed node ("+detail+"): Predecessors of its successors omit it"))
-		for _, ic := range ics {
-			r := ErrFlow(ic, ErrFlowOpts{})
-			c.Check(R, tn+"|index-error-returned", ic.Pos(), r.OK, r.How+r.Detail)
-		}
+		c.Check(R, tn+"|index-error-returned", hits[0].call.Pos(), okErr, detail)
 	}
+}
+
+func ifelseS(b bool, x, y []string) []string {
+	if b {
+		return x
+	}
+	return y
 }
 
 func c07R2Delete(c *Ctx) {
@@ -844,74 +882,139 @@ func c07R2Load(c *Ctx) {
 				graphParam = p
 			}
 		}
-		ias := CallsTo(fn, c07IdxAll)
-		if idxParam == nil || len(ias) == 0 {
+		if idxParam == nil {
+			continue
+		}
+		root := c05Root(fn)
+		hasIA := false
+		for _, e := range c05TreeEnvs(root, 3) {
+			if len(CallsTo(e.Fn, c07IdxAll)) > 0 {
+				hasIA = true
+			}
+		}
+		if !hasIA {
 			continue
 		}
 		n++
 		tn := FnName(fn)
-		var loop *Loop
-		var idx ssa.Value
-		var S ssa.Value
-		var body Edge
-		for _, l := range Loops(fn) {
-			r, i, b, _, ok := l.RangeIndex()
-			if !ok {
-				continue
+		isS := func(v ssa.Value) bool {
+			rs := Roots(v)
+			if len(rs) == 0 {
+				return false
 			}
-			for _, root := range Roots(r) {
-				if u, isU := root.(*ssa.UnOp); isU && u.Op == token.MUL {
-					if fa, isFA := u.X.(*ssa.FieldAddr); isFA && fa.X == ssa.Value(idxParam) && c05FieldNameOf(fa.X.Type(), fa.Field) == "Manifests" {
-						loop, idx, body, S = l, i, b, r
-					}
+			for _, r := range rs {
+				u, isU := r.(*ssa.UnOp)
+				if !isU || u.Op != token.MUL {
+					return false
+				}
+				fa, isFA := u.X.(*ssa.FieldAddr)
+				if !isFA || fa.X != ssa.Value(idxParam) || c05FieldNameOf(fa.X.Type(), fa.Field) != "Manifests" {
+					return false
 				}
 			}
+			return true
 		}
+		loop, idx, body := c05SliceLoop(fn, isS)
 		if loop == nil {
-			c.Undecided(R, tn+"|reindex-every-manifest", fn.Pos(), "no `for range index.Manifests` loop recognised")
+			c.Undecided(R, tn+"|reindex-every-manifest", fn.Pos(), "no loop over every element of index.Manifests recognised (range / index forms)")
 			continue
 		}
-		elems := map[ssa.Value]bool{}
-		AllInstrs(fn, func(in ssa.Instruction) {
-			if ld, ok := in.(*ssa.UnOp); ok && ld.Op == token.MUL {
-				if ia, ok := ld.X.(*ssa.IndexAddr); ok && SameValue(ia.X, S) && ia.Index == idx {
-					elems[ld] = true
+		isElem := func(x ssa.Value, at *c05Env) bool {
+			if !at.isRoot() {
+				return false
+			}
+			rs := Roots(c05Unspill(x))
+			if len(rs) == 0 {
+				return false
+			}
+			for _, r := range rs {
+				ld, ok := strip(r).(*ssa.UnOp)
+				if !ok || ld.Op != token.MUL {
+					return false
+				}
+				ia, ok := ld.X.(*ssa.IndexAddr)
+				if !ok || !isS(ia.X) || !idx[ia.Index] {
+					return false
 				}
 			}
-		})
-		ok := false
-		var theIA ssa.CallInstruction
-		for _, ia := range ias {
-			a := ia.Common().Args
-			d := a[len(a)-1]
-			fromElem := derivesFromAny(d, elems, 0)
-			if !fromElem {
-				// through the per-iteration copy `desc := manifests[i]`
-				for _, r := range Roots(c05Unspill(d)) {
-					if call, isCall := strip(r).(*ssa.Call); isCall && CalleeName(call) == "~/internal/descriptor.Plain" {
-						if sv := c05Unspill(call.Call.Args[0]); elems[sv] {
-							fromElem = true
-						}
-					}
-					if elems[strip(r)] {
-						fromElem = true
-					}
+			return true
+		}
+		var fromElem func(v ssa.Value, e *c05Env, d int) bool
+		fromElem = func(v ssa.Value, e *c05Env, d int) bool {
+			w, at := e.up(v)
+			if isElem(w, at) {
+				return true
+			}
+			if d > 3 {
+				return false
+			}
+			rs := Roots(c05Unspill(w))
+			if len(rs) == 0 {
+				return false
+			}
+			for _, r := range rs {
+				call, isCall := strip(r).(*ssa.Call)
+				if !isCall || CalleeName(call) != "~/internal/descriptor.Plain" || !fromElem(call.Call.Args[0], at, d+1) {
+					return false
 				}
 			}
-			if loop.Contains(ia.(ssa.Instruction)) && fromElem && (graphParam == nil || strip(a[0]) == ssa.Value(graphParam)) {
-				// every iteration either indexes or leaves the function
-				if c07EveryIteration(body, loop.Header, ia.(ssa.Instruction)) {
-					ok = true
-					theIA = ia
+			return true
+		}
+		var ias []ssa.CallInstruction
+		spec := c05PassSpec{Success: true, Instr: func(in ssa.Instruction, e *c05Env) bool {
+			call, ok := in.(*ssa.Call)
+			if !ok || CalleeName(call) != c07IdxAll {
+				return false
+			}
+			a := call.Call.Args
+			if graphParam != nil {
+				if g, at := e.up(a[0]); !at.isRoot() || strip(g) != ssa.Value(graphParam) {
+					return false
 				}
+			}
+			if !fromElem(a[len(a)-1], e, 0) {
+				return false
+			}
+			ias = append(ias, call)
+			return true
+		}}
+		ct := c05PassCut(root, spec)
+		var inLoop []ssa.Instruction
+		for in := range ct.instrs {
+			if loop.Contains(in) {
+				inLoop = append(inLoop, in)
 			}
 		}
+		ok := (len(ct.instrs) > 0 || len(ct.edges) > 0) && !reach(body.To, 0, loop.Header.Instrs[0], ct)
 		c.Check(R, tn+"|reindex-every-manifest", blockPos(loop.Header), ok,
 			ifelse(ok, "every iteration over index.Manifests calls graph.IndexAll for that entry (or returns an error)", "an entry of index.Manifests can be skipped when the layout is (re)opened: its edges are missing from Predecessors after reopen"))
-		if theIA != nil {
-			r := ErrFlow(theIA, ErrFlowOpts{})
-			c.Check(R, tn+"|reindex-error-returned", theIA.Pos(), r.OK, r.How+r.Detail)
+		okErr, detail := true, "the IndexAll error reaches the caller"
+		seen := map[ssa.Instruction]bool{}
+		for _, in := range append(inLoop, func() []ssa.Instruction {
+			var o []ssa.Instruction
+			for _, ia := range ias {
+				o = append(o, ia.(ssa.Instruction))
+			}
+			return o
+		}()...) {
+			if seen[in] {
+				continue
+			}
+			seen[in] = true
+			if r := ErrFlow(in.(ssa.CallInstruction), ErrFlowOpts{}); !r.OK {
+				okErr, detail = false, r.Detail
+			}
 		}
+		for in := range loop.Blocks {
+			for _, x := range in.Instrs {
+				if call, isCall := x.(*ssa.Call); isCall && c05Helper(call, fn) != nil && ErrOf(call) != nil && !seen[x] {
+					if r := ErrFlow(call, ErrFlowOpts{}); !r.OK {
+						okErr, detail = false, r.Detail
+					}
+				}
+			}
+		}
+		c.Check(R, tn+"|reindex-error-returned", blockPos(loop.Header), okErr, detail)
 		// callers pass their own graph
 		for _, g := range c.P.FuncsOfPkg("content/oci") {
 			for _, call := range Calls(g, func(string) bool { return true }) {
@@ -946,9 +1049,18 @@ func c07R2GC(c *Ctx) {
 	for _, fn := range c.P.FuncsOfPkg("content/oci") {
 		for _, G := range CallsTo(fn, "~/internal/graph.NewMemory") {
 			var ias []ssa.CallInstruction
-			for _, ia := range CallsTo(fn, c07IdxAll, c07Index) {
-				if SameValue(ia.Common().Args[0], G.Value()) {
-					ias = append(ias, ia)
+			otherGraph := false
+			for _, e := range c05TreeEnvs(c05Root(fn), 3) {
+				for _, ia := range CallsTo(e.Fn, c07IdxAll, c07Index) {
+					recv, at := e.up(ia.Common().Args[0])
+					if at.isRoot() && SameValue(recv, G.Value()) {
+						ias = append(ias, ia)
+						if CalleeName(ia) != c07IdxAll {
+							otherGraph = true
+						}
+					} else if _, isP := recv.(*ssa.Parameter); !(isP && !at.isRoot()) {
+						otherGraph = true
+					}
 				}
 			}
 			if len(ias) == 0 {
@@ -969,10 +1081,8 @@ func c07R2GC(c *Ctx) {
 				}
 			}
 			// no other graph is indexed into in this function, and roots are indexed transitively
-			for _, ia := range CallsTo(fn, c07IdxAll, c07Index) {
-				if !SameValue(ia.Common().Args[0], G.Value()) || CalleeName(ia) != c07IdxAll {
-					ok = false
-				}
+			if otherGraph && len(CallsTo(fn, "~/internal/graph.NewMemory")) == 1 {
+				ok = false
 			}
 			c.Check(R, tn+"|rebuilt-graph-installed", G.Pos(), ok,
 				ifelse(ok, fmt.Sprintf("the %d IndexAll call(s) fill the new graph and every successful path installs it as s.graph", len(ias)), "GC rebuilds a predecessor graph but does not install it on every successful path, indexes into another graph, or indexes roots without their descendants (Index instead of IndexAll): Predecessors after GC reports removed manifests or misses kept ones"))
